@@ -960,6 +960,30 @@ class MaskedSel:
         return reduce("all", binop("or", unop("invert", self._m()), self.t))
 
 
+# elementwise operations that commute with row selection: f(x[mask], y[mask]) == f(x, y)[mask]
+MASKED_ELEMENTWISE = {"max", "min", "maximum", "minimum", "floor", "ceil", "abs", "int", "long", "float", "double", "bool", "clamp",
+                      "clamp_min", "clamp_max", "relu", "square", "sqrt", "exp", "log", "neg", "round", "to", "type", "clone", "detach",
+                      "isinf", "isnan", "isfinite", "logical_not", "eq", "ne", "lt", "le", "gt", "ge", "add", "sub", "mul", "div",
+                      "true_divide", "sign", "reciprocal", "pow", "logical_and", "logical_or", "where", "masked_fill", "cpu", "contiguous"}
+
+
+def masked_lift(fn, *args):
+    """Apply an elementwise function to masked selections: every selection must come from the SAME mask tensor and
+    from tensors of the mask's shape extended to the right; plain scalars pass through."""
+    sels = [a for a in args if isinstance(a, MaskedSel)]
+    m = sels[0].mask
+    for s_ in sels[1:]:
+        if s_.mask is not m:
+            raise Unsupported("elementwise operation on selections by different masks")
+    for a in args:
+        if isinstance(a, SymTensor) and a.rank > 0:
+            raise Unsupported("elementwise operation between a masked selection and a tensor")
+    r = fn(*[a.t if isinstance(a, MaskedSel) else a for a in args])
+    if not isinstance(r, SymTensor):
+        raise Unsupported("elementwise operation on a masked selection did not return a tensor")
+    return MaskedSel(r, m)
+
+
 # ---- topk: assumed contract of torch.topk (k concrete): k pairwise distinct positions, values = input there,
 #      sorted (descending for largest=True), every other value is <= (>=) the last selected one
 _TOPK = [0]
